@@ -133,12 +133,12 @@ section
 variable {c : Bool} {inst : Instance} {dom : List Nat}
 
 theorem Inv.work {s : St} (h : Inv c inst dom s) (w : Nat) : Inv c inst dom { s with work := w } :=
-  ⟨h.quiet, h.cacheOn, h.cacheOK, h.stackCo, h.nodup, h.disj, h.inDom, h.val, h.approx, h.stk, h.nonstk,
+  ⟨h.quiet, h.cacheOK, h.stackCo, h.nodup, h.disj, h.inDom, h.val, h.approx, h.stk, h.nonstk,
    h.cnt, h.just⟩
 
 theorem Step.work (s : St) (w : Nat) (lb : Min) : Step c inst s { s with work := w } lb :=
   ⟨⟨[], by simp, fun n hn => by cases hn⟩, StackExt.refl _, fun _ _ h => h, fun _ _ h => h,
-   fun k hu hd => absurd hd (hu _)⟩
+   fun k hu hd => absurd hd (hu _), rfl⟩
 
 end
 
